@@ -52,8 +52,13 @@ class Rec(Collector):
         if self.boom is not None and t == 0 and self.id == 'c0':
             if self.boom in LIB_ERRORS:       # the library's own exception types, raised by model code
                 raise LIB_ERRORS[self.boom](self.model)
+            if self.boom.endswith('!done'):   # the failing code had already marked its model complete
+                self.model.complete()
             raise BOOM_KINDS[self.boom](f'boom a={self.a} b={self.b} t={t}')
-        self.records.append((self.id, self.a, self.b, t, self.n))
+        if isinstance(self.records, dict):
+            self.records[t] = (self.id, self.a, self.b, t, self.n)       # a collector that keys its records by timestep
+        else:
+            self.records.append((self.id, self.a, self.b, t, self.n))
         if t > self.life + 6:
             raise Violation(f'execution a={self.a} b={self.b} is still being stepped at timestep {t}, far past its own '
                             f'completion (life {self.life})', expected=self.life, observed=t)
@@ -118,7 +123,9 @@ LIB_ERRORS = {'ModelCompleteError': lambda m: Core.ModelCompleteError(),
 BOOM_KINDS = {'RuntimeError': RuntimeError, 'StopIteration': StopIteration, 'KeyError': KeyError,
               'BoomError': BoomError, 'ModelCompleteError': Core.ModelCompleteError,
               'AgentNotFoundError': Core.AgentNotFoundError, 'DuplicateAgentError': Core.DuplicateAgentError,
-              'ComponentNotFoundError': Core.ComponentNotFoundError}
+              'ComponentNotFoundError': Core.ComponentNotFoundError,
+              # the built-in TimeoutError (what a model's own I/O may raise), and errors raised after complete()
+              'TimeoutError': TimeoutError, 'RuntimeError!done': RuntimeError, 'BoomError!done': BoomError}
 
 
 LIB_ERROR_TYPES = tuple(BOOM_KINDS[k] for k in LIB_ERRORS)
@@ -162,6 +169,8 @@ class BModel(Core.Model):
             boom = None
         if nocoll != f'{a},{b}':         # nocoll names an execution whose model lacks the collector 'c0'
             self.systems.add_system(Rec('c0', self, a, b, life, boom))
+            if style == 'dict_records':
+                self.systems['c0'].records = {}
         self.systems.add_system(Rec('c1', self, a, b, life, boom))     # registered second: runs after c0
         if delay:      # conformance leg only: run durations perturbed per execution so completion order gets permuted
             time.sleep(delay * ((a * 7 + b * 3 + jitter) % 4))
@@ -252,9 +261,12 @@ def expected_result(task, coll, life, limit, style=None):
     a, b = task
     if coll == 'none':
         return None
+    c0 = ref_records('c0', a, b, life, limit, style)
+    if style == 'dict_records':
+        c0 = {r[3]: r for r in c0}          # the execution's own records object: a dict keyed by timestep
     if coll == 'c0':
-        return ref_records('c0', a, b, life, limit, style)
-    return {'c0': ref_records('c0', a, b, life, limit, style), 'c1': ref_records('c1', a, b, life, limit, style)}
+        return c0
+    return {'c0': c0, 'c1': ref_records('c1', a, b, life, limit, style)}
 
 
 def run_batch(case, cache=None):
@@ -294,7 +306,7 @@ def run_batch(case, cache=None):
         try:
             got = Batching.batch_run(BModel, params, **kwargs)
             raised = None
-        except (RuntimeError, StopIteration, KeyError, BoomError, AttributeError) + LIB_ERROR_TYPES as e:
+        except (RuntimeError, StopIteration, KeyError, BoomError, AttributeError, TimeoutError) + LIB_ERROR_TYPES as e:
             got, raised = None, e
         except sched.PoolHang as e:
             raise Violation(f'batch_run never returns and the error of the failing execution never reaches the caller: '
@@ -379,7 +391,7 @@ def extra_cases():
                     yield {'leg': 'sources', 'grid': gname, 'reps': reps, 'life': 2, 'limit': None, 'collectors': 'c0',
                            'procs': procs, 'outcome': oc, 'source': src}
     # models that finish by their own criterion (is_running overridden) / whose clock jumps ahead (event-driven)
-    for style in ('own_done', 'jump', 'own_execute', 'nested_batch'):
+    for style in ('own_done', 'jump', 'own_execute', 'nested_batch', 'dict_records'):
         for life, limit in ((3, None), (3, 2), (3, 3), (3, 7), (6, 2), (6, 3), (6, 4), (6, 5), (2, None), (1, 3), (9, 4)):
             for coll in ('c0', 'list'):
                 for procs, oc in ((1, None), (2, [[[0], [1]], [1, 0]])):
